@@ -19,6 +19,8 @@ func KeyToSlot(key string) uint16 {
 					break
 				}
 			}
+			// Redis Cluster only considers the first '{'
+			break
 		}
 	}
 	if len(hashtag) > 0 {
